@@ -72,7 +72,7 @@ func processModifiersCore[T any](
 	isPtr := reflect.TypeFor[T]().Kind() == reflect.Pointer
 
 	if internals.NonOptional && !isPtr {
-		return nil, true, issues.CreateNonOptionalError(ctx)
+		return nil, true, issues.CreateNonOptionalErrorWithInst(ctx, internals)
 	}
 
 	// Optional/Nilable and pointer types naturally allow nil values.
@@ -96,7 +96,9 @@ func processModifiersCore[T any](
 		return nil, true, nil
 	}
 
-	return nil, true, issues.CreateInvalidTypeError(expectedType, input, ctx)
+	// Carry the schema so that its own message (String("required").Parse(nil)) is consulted,
+	// as for a non-nil input of the wrong type.
+	return nil, true, issues.CreateInvalidTypeErrorWithInst(expectedType, input, ctx, internals)
 }
 
 // ----------------------------------------------------------------------------
